@@ -185,6 +185,32 @@ func execNotifier(t *trace, script []string) {
 				s.subscribed = true
 				return "ok"
 			}()
+		case "dupsub":
+			// a second SubscribeContext for the same (key, channel) with ANOTHER context, which is cancelled straight afterwards:
+			// the call panics and must leave the existing subscription (and its context) as it was. If there is no such
+			// subscription the call succeeds and is undone.
+			if len(f) != 2 || x.inPub {
+				break
+			}
+			s := x.subs[atoi(f[1])]
+			if s == nil {
+				break
+			}
+			other, cancelOther := context.WithCancel(context.Background())
+			r = func() (r string) {
+				defer func() {
+					if recover() != nil {
+						r = "panic"
+					}
+				}()
+				x.n.SubscribeContext(other, s.key, s.ch.Interface())
+				return "ok"
+			}()
+			if r == "ok" {
+				x.n.Unsubscribe(s.key, s.ch.Interface())
+				r = "ok-undone"
+			}
+			cancelOther()
 		case "unsub":
 			if len(f) != 3 || x.inPub {
 				break
@@ -394,6 +420,9 @@ func genNotifier(r *rng.R, tier string, i int) []string {
 	}
 	if r.Chance(15) {
 		s = append(s, fmt.Sprintf("unsub %d %d", r.Intn(nsubs), r.Intn(2))) // possibly unmatched
+	}
+	if r.Chance(25) {
+		s = append(s, fmt.Sprintf("dupsub %d", r.Intn(nsubs))) // rejected duplicate with another (then cancelled) context
 	}
 	s = append(s, "state")
 	rounds := 1 + r.Intn(3)
